@@ -43,12 +43,12 @@ def rt_inst(fmt, ns, aln, nls, sym_names=False, win=None, **kw):
 def instances(tier):
     out = []
     if tier == "quick":
-        tup = [(1, 2, 3), (1, 3, 4), (3, 2, 3), (3, 3, 4), (1, 2, 61), (3, 2, 61)]
+        tup = [(1, 2, 3), (1, 3, 4), (3, 2, 3), (3, 3, 4), (1, 2, 59), (1, 2, 61), (3, 2, 60), (3, 2, 61)]
     else:
         # MSF read-back: symex of read_msf on the tape did not finish in 150 s at 2x2 (attempted here with a longer cap)
         tup = [(f, ns, a) for f in (1, 3) for ns in (2, 3) for a in (1, 2, 3, 4, 5)] + [(f, 2, a) for f in (1, 3) for a in (59, 60, 61, 120)] + [(2, 2, 2)]
     for fmt, ns, aln in tup:
-        win = (57, min(aln, 63)) if aln >= 59 else None
+        win = (56, min(aln, 63)) if aln >= 59 else None
         if aln >= 119:
             win = (117, min(aln, 123))
         out.append(rt_inst(fmt, ns, aln, (1, 2, 3) if ns == 3 else (2, 1, 1), win=win))
